@@ -200,26 +200,15 @@ def run(chk, repo, tier):
     fr, fe = repo.func('radiometry.planck_radiance'), repo.func('radiometry.planck_exitance')
     xm = None
     for vu, label in ((Const('wlam'), "valueunit='wlam'"), (Const('photlam'), 'other valueunit')):
-        _, pr, _ = analyse(repo, fr, config={'valueunit': vu}, symbolic_globals=True)
-        _, pe, _ = analyse(repo, fe, config={'valueunit': vu}, symbolic_globals=True)
+        # the flux-unit converter is evaluated too: the comparison is on the returned value itself
+        _, pr, _ = analyse(repo, fr, config={'valueunit': vu}, symbolic_globals=True, inline=['radiometry.Wlam.to'])
+        _, pe, _ = analyse(repo, fe, config={'valueunit': vu}, symbolic_globals=True, inline=['radiometry.Wlam.to'])
         rr, re_ = returns(pr), returns(pe)
         if len(rr) != 1 or len(re_) != 1:
             raise AnalysisError('planck_* do not fold to one path per valueunit configuration')
         r, e = rr[0].ret, re_[0].ret
-        if vu.value == 'wlam':
-            ok = e == nf.PI * r
-            det = f'exitance/radiance = {fmt(e / r) if isinstance(r, Poly) and isinstance(e, Poly) and len(r.terms) == 1 else "?"}'
-        else:
-            # both delegate the flux to Wlam.to(flux, valueunit, wave): compare the flux argument
-            def flux_arg(v):
-                for a in nf.value_atoms(v):
-                    if is_app(a, 'call:radiometry.Wlam.to'):
-                        return {k.items[0].value: k.items[1] for k in a[2]}.get('flux')
-                return None
-            a_r, a_e = flux_arg(r), flux_arg(e)
-            ok = a_r is not None and a_e is not None and a_e == nf.PI * a_r and \
-                nf.subst_value(e, {}) is not None
-            det = 'flux passed to the converter differs by ' + (fmt(a_e / a_r) if ok or (a_r is not None and a_e is not None and len(a_r.terms) == 1) else '?')
+        ok = isinstance(r, Poly) and isinstance(e, Poly) and e == nf.PI * r
+        det = f'exitance/radiance = {fmt(e / r) if isinstance(r, Poly) and isinstance(e, Poly) and len(r.terms) == 1 else "?"}'
         chk.ob('C14-d', 'N-sibling', 'radiometry.planck_exitance', f'= pi * planck_radiance [{label}]', ok,
                det, fe.loc())
         if vu.value == 'wlam':
